@@ -1,122 +1,323 @@
+// drive-dkgrun: correspondence driver for the ceremony glue of dkg/dkg.go that runs AFTER the
+// key-generation rounds (C11): Run, createDistValidators, signAndAgg*, agg*, sign*, the exchanger
+// (dkg/exchanger.go), the node signature broadcast (dkg/nodesigs.go), the disk writers (dkg/disk.go),
+// checkThreshold, getExistingShares.
+//
+// One ceremony = the REAL dkg.Run of all n nodes in this process over loopback TCP libp2p (the way
+// dkg/dkg_test.go runs it: definition from cluster.NewDefinition, signed operators, TestConfig with the
+// insecure keystore cost and a P2PNodeCallback that tells the nodes each other's listen address; the
+// definition is loaded from disk through loadDefinition, the p2p key too). Afterwards the harness loads
+// what every node WROTE (cluster-lock.json through cluster.LoadClusterLock, validator_keys through
+// dkg.LoadSecrets, deposit-data files through deposit.ReadDepositDataFiles) and
+//   - emits the secret shares as scalars so that the Lean side (Model/Fr.lean) checks that they lie on one
+//     polynomial of degree < t, recomputes the group secret and every subset recovery bit for bit,
+//   - renders the artifacts of every node canonically (every key, public share and signature replaced by
+//     what the harness recomputed it to be with tbls alone) and the Lean model of the glue
+//     (Model/DkgGlue.lean) predicts that rendering from the shape of the ceremony,
+//   - drives the aggregation functions, createDistValidators and the real exchanger (hook
+//     dkg/verif_export_run.go) directly on the ceremony's shares with permuted, incomplete, mis-indexed and
+//     mis-signed partial signatures; the model predicts result or error class.
+//
+// ops:
+//
+//	run <n> <t> <v> <alg> <amts|-> <ver> <flags> <sched>   ceremony (reset op)          -> ok | err
+//	val <k> <j:sk,..>          secret shares the keystores hold for validator k        -> x=<group secret> pk=<is the lock's key>
+//	rec <k> <ids>              -> <RecoverSecret(ids)> rpk=<RecoverPubkey(lock pubshares ids)==lock key>
+//	sig <k> <ids> <msg>        -> agg=<ThresholdAggregate(partials)==Sign(x,msg)> ver=<Verify(lock key)>
+//	art <j>                    canonical artifacts of node j
+//	cdv <j> <ddspec> <regs>    createDistValidators at node j on permuted / incomplete inputs
+//	agg <kind> <j> <data>      aggLockHashSig (L) / aggValidatorRegistrations (R) / aggDepositData (D<i>)
+//	xnew                       n real exchangers over libp2p's in-memory network
+//	xinj <r> <a> <c> <tau> <ks> <g|b>   receiver r gets from sender a partials claiming share index c
+//	xrun <tau>                 every node exchanges its genuine set                    -> per node the collected partials
 package main
 
 import (
-	"context"
-	crand "crypto/rand"
+	"encoding/hex"
 	"fmt"
-	"net"
-	"os"
-	"path"
-	"sync"
-	"time"
+	"strconv"
+	"strings"
 
-	k1 "github.com/decred/dcrd/dcrec/secp256k1/v4"
-	"github.com/libp2p/go-libp2p/core/host"
-	"github.com/libp2p/go-libp2p/core/peerstore"
-
-	"github.com/obolnetwork/charon/app/k1util"
 	"github.com/obolnetwork/charon/app/log"
-	"github.com/obolnetwork/charon/cluster"
-	"github.com/obolnetwork/charon/dkg"
-	dkgsync "github.com/obolnetwork/charon/dkg/sync"
-	"github.com/obolnetwork/charon/eth2util"
-	"github.com/obolnetwork/charon/eth2util/enr"
-	"github.com/obolnetwork/charon/eth2util/keystore"
-	"github.com/obolnetwork/charon/p2p"
 	"github.com/obolnetwork/charon/tbls"
+
+	"verifharness/hx"
 )
 
-func must(err error) {
-	if err != nil {
-		panic(err)
+func unhex(s string) []byte {
+	if s == "-" {
+		return nil
 	}
+	b, err := hex.DecodeString(s)
+	hx.Must(err)
+	return b
 }
 
-func freeAddr() string {
-	l, err := net.Listen("tcp", "127.0.0.1:0")
-	must(err)
-	defer l.Close()
-	return l.Addr().String()
+func parseIDs(s string) []int {
+	var out []int
+	for _, f := range strings.Split(s, ",") {
+		v, err := strconv.Atoi(f)
+		hx.Must(err)
+		out = append(out, v)
+	}
+	return out
+}
+
+func idsStr(ids []int) string {
+	p := make([]string, len(ids))
+	for i, v := range ids {
+		p[i] = strconv.Itoa(v)
+	}
+	return strings.Join(p, ",")
+}
+
+func (c cfg) opLine() string {
+	amts := "-"
+	if len(c.amts) > 0 {
+		amts = idsStr(c.amts)
+	}
+	flags := ""
+	if c.comp {
+		flags += "c"
+	}
+	if c.noverify {
+		flags += "x"
+	}
+	if flags == "" {
+		flags = "-"
+	}
+	return fmt.Sprintf("run %d %d %d %s %s %s %s %d", c.n, c.t, c.nv, c.alg, amts, c.ver, flags, c.sched)
+}
+
+func parseCfg(f []string) cfg {
+	var c cfg
+	c.n, _ = strconv.Atoi(f[1])
+	c.t, _ = strconv.Atoi(f[2])
+	c.nv, _ = strconv.Atoi(f[3])
+	c.alg = f[4]
+	if f[5] != "-" {
+		c.amts = parseIDs(f[5])
+	}
+	c.ver = f[6]
+	c.comp = strings.Contains(f[7], "c")
+	c.noverify = strings.Contains(f[7], "x")
+	c.sched, _ = strconv.ParseUint(f[8], 10, 64)
+	return c
+}
+
+// configRefused: harness-side statement of which shapes dkg.Run must refuse before any key generation.
+func configRefused(c cfg) bool {
+	if c.t < 2 || c.t > c.n {
+		return true
+	}
+	if len(c.amts) > 0 {
+		sum, max := 0, 32
+		if c.comp {
+			max = 2048
+		}
+		for _, a := range c.amts {
+			if a < 1 || a > max {
+				return true
+			}
+			sum += a
+		}
+		if sum < 32 {
+			return true
+		}
+	}
+	return false
 }
 
 func main() {
-	must(log.InitLogger(log.Config{Level: "error", Format: "console", Color: "disable"}))
-	n, t, nv := 3, 2, 2
-	var keys []*k1.PrivateKey
-	var ops []cluster.Operator
-	for i := 0; i < n; i++ {
-		k, err := k1.GeneratePrivateKey()
-		must(err)
-		keys = append(keys, k)
-		rec, err := enr.New(k)
-		must(err)
-		ops = append(ops, cluster.Operator{Address: eth2util.PublicKeyToAddress(k.PubKey()), ENR: rec.String()})
-	}
-	var fee, wd []string
-	for i := 0; i < nv; i++ {
-		fee = append(fee, fmt.Sprintf("0x%040x", 0xfee0+i))
-		wd = append(wd, fmt.Sprintf("0x%040x", 0xdead0+i))
-	}
-	def, err := cluster.NewDefinition("verif", nv, t, fee, wd, eth2util.Goerli.GenesisForkVersionHex,
-		cluster.Creator{Address: ops[0].Address}, ops, nil, "", 30000000, false, crand.Reader,
-		cluster.WithDKGAlgorithm(os.Args[1]))
-	must(err)
-	for i := range def.Operators {
-		def.Operators[i], err = cluster.VerifSignOperator(keys[i], def, def.Operators[i])
-		must(err)
-	}
-	def, err = cluster.VerifSignCreator(keys[0], def)
-	must(err)
-	def, err = def.SetDefinitionHashes()
-	must(err)
-	must(def.VerifySignatures(nil))
+	a := hx.ParseArgs()
+	hx.Must(log.InitLogger(log.Config{Level: "fatal", Format: "console", Color: "disable"}))
+	run := hx.NewRun(a.Dir)
+	defer run.Close()
+	var ce *cer
+	var xn *xnet
 
-	dir, err := os.MkdirTemp("", "dkgrun")
-	must(err)
-	fmt.Println(dir)
-	var mu sync.Mutex
-	var hosts []host.Host
-	cb := func(h host.Host) {
-		mu.Lock()
-		defer mu.Unlock()
-		for _, o := range hosts {
-			o.Peerstore().AddAddrs(h.ID(), h.Addrs(), peerstore.PermanentAddrTTL)
-			h.Peerstore().AddAddrs(o.ID(), o.Addrs(), peerstore.PermanentAddrTTL)
-		}
-		hosts = append(hosts, h)
-	}
-	ctx, cancel := context.WithCancel(context.Background())
-	defer cancel()
-	errs := make([]error, n)
-	var wg sync.WaitGroup
-	t0 := time.Now()
-	for i := 0; i < n; i++ {
-		d := def
-		conf := dkg.Config{
-			DataDir: path.Join(dir, fmt.Sprintf("node%d", i)),
-			P2P:     p2p.Config{TCPAddrs: []string{freeAddr()}},
-			Log:     log.DefaultConfig(),
-			TestConfig: dkg.TestConfig{
-				Def: &d,
-				StoreKeysFunc: func(secrets []tbls.PrivateKey, dir string) error {
-					return keystore.StoreKeysInsecure(secrets, dir, keystore.ConfirmInsecureKeys)
-				},
-				P2PNodeCallback: cb,
-				SyncOpts:        []func(*dkgsync.Client){dkgsync.WithPeriod(50 * time.Millisecond)},
-			},
-			Timeout: 8 * time.Second,
-		}
-		must(os.MkdirAll(conf.DataDir, 0o755))
-		must(k1util.Save(keys[i], p2p.KeyPath(conf.DataDir)))
-		wg.Add(1)
-		go func() {
-			defer wg.Done()
-			errs[i] = dkg.Run(ctx, conf)
-			if errs[i] != nil {
-				cancel()
+	exec := func(op string) {
+		f := strings.Fields(op)
+		if f[0] == "run" {
+			xn.close()
+			xn = nil
+			c := parseCfg(f)
+			run.Begin(op)
+			var err error
+			ce, err = newCeremony(c)
+			run.Count("run")
+			if err != nil { // the definition cannot even be built
+				ce.ok = false
+				run.Count("run:nodef")
+				run.Op(op, "err")
+				return
 			}
-		}()
+			ce.run()
+			if !ce.ok {
+				if !configRefused(c) {
+					sig := "dkgrun:ceremony_failed_error"
+					if timeoutClass(ce.errs) {
+						sig = "dkgrun:ceremony_failed_timeout"
+					}
+					run.Violate(sig, fmt.Sprintf("%s: %s", c.opLine(), errsStr(ce.errs)))
+				}
+				run.Count("run:err")
+				run.Op(op, "err")
+				return
+			}
+			if configRefused(c) {
+				run.Violate("dkgrun:bad_config_not_refused", c.opLine())
+			}
+			if !ce.derive(run) {
+				ce.ok = false
+				run.Op(op, "ok")
+				return
+			}
+			run.Case(fmt.Sprintf("run:%d:%d:%d:%s:%v:%s", c.n, c.t, c.nv, c.alg, c.amts, c.ver))
+			run.Count("run:" + c.alg)
+			run.Count("run:" + c.ver)
+			run.Op(op, "ok")
+			return
+		}
+		if ce == nil || !ce.ok {
+			panic("op without successful ceremony: " + op)
+		}
+		n, t := ce.c.n, ce.c.t
+		switch f[0] {
+		case "val":
+			k, _ := strconv.Atoi(f[1])
+			var sks []string
+			for j := 0; j < n; j++ {
+				sks = append(sks, fmt.Sprintf("%d:%x", j+1, ce.sk[j][k][:]))
+			}
+			okPK := string(ce.locks[0].Validators[k].PubKey) == string(ce.G[k][:])
+			if !okPK {
+				run.Violate("dkgrun:group_key_not_key_of_shared_secret", fmt.Sprintf("validator %d: the secret interpolated from all keystore shares does not have the lock's group public key", k))
+			}
+			run.Count("val")
+			run.Op(fmt.Sprintf("val %d %s", k, strings.Join(sks, ",")), fmt.Sprintf("x=%x pk=%s", ce.x[k][:], b01(okPK)))
+		case "rec":
+			k, _ := strconv.Atoi(f[1])
+			ids := parseIDs(f[2])
+			sub := map[int]tbls.PrivateKey{}
+			pub := map[int]tbls.PublicKey{}
+			for _, j := range ids {
+				sub[j] = ce.sk[j-1][k]
+				var p tbls.PublicKey
+				copy(p[:], ce.locks[j%n].Validators[k].PubShares[j-1]) // as written by another node
+				pub[j] = p
+			}
+			rec, err := tbls.RecoverSecret(sub, uint(n), uint(t))
+			if err != nil {
+				run.Op(op, "err")
+				return
+			}
+			rpk, err := tbls.RecoverPubkey(pub)
+			okR := err == nil && string(rpk[:]) == string(ce.locks[0].Validators[k].PubKey)
+			if len(sub) >= t {
+				if !okR {
+					run.Violate("dkgrun:pubshares_do_not_reconstruct_group_key", fmt.Sprintf("validator %d: the lock's public shares %v do not reconstruct the lock's group key", k, ids))
+				}
+				if rec != ce.x[k] {
+					run.Violate("dkgrun:subset_recovers_other_secret", fmt.Sprintf("validator %d ids=%v", k, ids))
+				}
+				run.Case(fmt.Sprintf("rec:%d:%d:%s", n, t, f[2]))
+			} else {
+				if rec == ce.x[k] || okR {
+					run.Violate("dkgrun:below_threshold_recovers", fmt.Sprintf("validator %d: %d < t=%d shares %v reconstruct the group key", k, len(sub), t, ids))
+				}
+				run.Count("rec:below_threshold")
+			}
+			run.Count("rec")
+			run.Op(op, fmt.Sprintf("%x rpk=%s", rec[:], b01(okR)))
+		case "sig":
+			k, _ := strconv.Atoi(f[1])
+			ids := parseIDs(f[2])
+			msg := unhex(f[3])
+			parts := map[int]tbls.Signature{}
+			for _, j := range ids {
+				s, err := tbls.Sign(ce.sk[j-1][k], msg)
+				hx.Must(err)
+				parts[j] = s
+				var p tbls.PublicKey
+				copy(p[:], ce.locks[j%n].Validators[k].PubShares[j-1])
+				if tbls.Verify(p, msg, s) != nil {
+					run.Violate("dkgrun:keystore_share_not_lock_pubshare", fmt.Sprintf("validator %d: a signature of node %d's keystore share is rejected under public share %d of the lock", k, j-1, j-1))
+				}
+			}
+			sig, err := tbls.ThresholdAggregate(parts)
+			if err != nil {
+				run.Op(op, "err")
+				return
+			}
+			var gk tbls.PublicKey
+			copy(gk[:], ce.locks[0].Validators[k].PubKey)
+			ver := tbls.Verify(gk, msg, sig) == nil
+			full, err := tbls.Sign(ce.x[k], msg)
+			agg := err == nil && full == sig
+			if len(parts) >= t {
+				if !ver {
+					run.Violate("dkgrun:threshold_signature_rejected", fmt.Sprintf("validator %d ids=%v: the aggregate of the keystore shares' partial signatures does not verify under the lock's group key", k, ids))
+				}
+				run.Case(fmt.Sprintf("sig:%d:%d:%s", n, t, f[2]))
+			} else {
+				if ver {
+					run.Violate("dkgrun:below_threshold_recovers", fmt.Sprintf("validator %d: %d < t=%d partial signatures %v combine into a valid group signature", k, len(parts), t, ids))
+				}
+				run.Count("sig:below_threshold")
+			}
+			run.Count("sig")
+			run.Op(op, fmt.Sprintf("agg=%s ver=%s", b01(agg), b01(ver)))
+		case "art":
+			j, _ := strconv.Atoi(f[1])
+			run.Count("art")
+			run.Op(op, ce.artStr(j))
+		case "cdv":
+			j, _ := strconv.Atoi(f[1])
+			out := ce.cdv(run, j, f[2], f[3])
+			run.Count("cdv:" + strings.Fields(out)[0])
+			run.Case("cdv:" + f[2] + ":" + f[3])
+			run.Op(op, out)
+		case "agg":
+			j, _ := strconv.Atoi(f[2])
+			out := ce.agg(run, f[1], j, parseData(f[3]))
+			run.Count("agg:" + f[1][:1] + ":" + strings.Join(strings.Fields(out)[:1], ""))
+			if strings.HasPrefix(out, "err") {
+				run.Count("agg:" + out)
+			}
+			run.Case("agg:" + f[1] + ":" + f[3])
+			run.Op(op, out)
+		case "xnew":
+			xn.close()
+			xn = ce.xnew()
+			run.Count("xnew")
+			run.Op(op, "ok")
+		case "xinj":
+			r, _ := strconv.Atoi(f[1])
+			s, _ := strconv.Atoi(f[2])
+			c, _ := strconv.Atoi(f[3])
+			tau, _ := strconv.Atoi(f[4])
+			out := ce.xinj(run, xn, r, s, c, tau, parseIDs(f[5]), f[6])
+			run.Count("xinj:" + out)
+			run.Case(fmt.Sprintf("xinj:%d:%v:%s:%s", tau, c == s+1, f[6], out))
+			run.Op(op, out)
+		case "xrun":
+			tau, _ := strconv.Atoi(f[1])
+			run.Begin(op)
+			run.Count("xrun")
+			run.Op(op, ce.xrun(run, xn, tau))
+		default:
+			panic("bad op " + op)
+		}
 	}
-	wg.Wait()
-	fmt.Println(errs, time.Since(t0))
+
+	if a.Mode == "exec" {
+		for _, op := range hx.ReadOps(a.Ops) {
+			exec(op)
+		}
+		xn.close()
+		return
+	}
+	gen(a, run, exec, func() *cer { return ce })
+	xn.close()
 }
